@@ -427,7 +427,7 @@ end canon
 
 /-! ## E. norm = norm of the centre tensor -/
 section norm
-open Matrix Kronecker EmuVerif.Isometry
+open Matrix EmuVerif.Isometry
 variable {R : Type} [CommRing R] [StarRing R] {D : Type} [Fintype D] [DecidableEq D]
 
 /-- In mixed-canonical form (sites left of the centre left-orthonormal, right of it right-orthonormal —
@@ -436,14 +436,14 @@ theorem norm_eq_centre_norm {P B B' P' : Type} [Fintype P] [DecidableEq P] [Fint
     [Fintype B'] [DecidableEq B'] [Fintype P'] [DecidableEq P']
     {U : Matrix P B R} {V : Matrix B' P' R} (hU : LeftChain R D P B U) (hV : RightChain R D B' P' V)
     (C : Matrix (B × D) B' R) :
-    frob2 ((U ⊗ₖ (1 : Matrix D D R)) * C * V) = frob2 C :=
+    frob2 (kronOne D U * C * V) = frob2 C :=
   norm_eq_centre hU hV C
 
 end norm
 
 /-! ## Non-vacuity: concrete instances of the hypotheses -/
 section examples
-open EmuVerif.Canon Matrix Kronecker EmuVerif.Isometry
+open EmuVerif.Canon Matrix EmuVerif.Isometry
 
 /-- a tie exactly at ε²: prefix sums 1/8, 1/4 (= ε², not above), 3/8 → index 2 -/
 example : cutoffIndex [(1 : ℚ) / 8, 1 / 8, 1 / 8] (1 / 2) = some 2 := by decide +kernel
@@ -468,7 +468,7 @@ example : EmuVerif.CutoffMatrix.EighContract (Matrix.diagonal ![(1 : ℚ), 2]) !
   ⟨by simp, by simp⟩
 /-- a two-site left chain exists -/
 example : LeftChain ℚ (Fin 2) ((Unit × Fin 2)) (Unit × Fin 2)
-    (((1 : Matrix Unit Unit ℚ) ⊗ₖ (1 : Matrix (Fin 2) (Fin 2) ℚ)) * (1 : Matrix (Unit × Fin 2) (Unit × Fin 2) ℚ)) :=
+    (kronOne (Fin 2) (1 : Matrix Unit Unit ℚ) * (1 : Matrix (Unit × Fin 2) (Unit × Fin 2) ℚ)) :=
   LeftChain.snoc _ _ LeftChain.nil (by simp)
 /-- a history that succeeds and one on which Python raises -/
 example : (run (fresh 5) [.orthogonalize 2, .truncate, .add, .scale, .apply 3, .correlation, .entropy 1,
